@@ -132,10 +132,24 @@ def no_data_no_event(r, ctx):
 def special_preempts(r, ctx):
     """C04.R2: special actions pre-empt data; a queued Unlinked discards that lane's pending data."""
     _, pop, ps = fns(ctx)
-    sp = [c for c in pop.calls if c.name == "pop_front" and describe_operand(pop, c.args[0]).endswith(".special_queue")]
-    wq = [c for c in pop.calls if c.name == "pop_front" and describe_operand(pop, c.args[0]).endswith(".write_queue")]
+    POPS = ("pop_front", "pop_back")
+    sp = [c for c in pop.calls if c.name in POPS and describe_operand(pop, c.args[0]).endswith(".special_queue")]
+    wq = [c for c in pop.calls if c.name in POPS and describe_operand(pop, c.args[0]).endswith(".write_queue")]
     if len(sp) != 1 or len(wq) != 1:
         raise AnchorMissing("replace_and_pop: special/write queue pop sites")
+    # both queues are first-in-first-out: what is accepted first is written first (linked before the unlinked that follows it; a lane's turn in order)
+    rt_ = ctx.crate("swimos_runtime")
+    for q, popc in (("special_queue", sp[0]), ("write_queue", wq[0])):
+        ins = set()
+        for b in rt_.all_bodies():
+            if "remotes::uplink::" not in b.defpath or "::tests" in b.defpath:
+                continue
+            for c in b.calls:
+                if c.name in ("push_back", "push_front") and c.args and describe_operand(b, c.args[0]).endswith("." + q):
+                    ins.add(c.name)
+        fifo = (ins == {"push_back"} and popc.name == "pop_front") or (ins == {"push_front"} and popc.name == "pop_back")
+        r.check(fifo, "%s/first-in-first-out" % q, popc.loc(), "%s: entries enter with %s and leave with %s" % (q, sorted(ins), popc.name),
+                "%s: entries enter with %s but leave with %s: frames accepted while the writer is busy are written in reverse order (an unlinked before the linked it closes, a lane's events out of turn)" % (q, sorted(ins), popc.name))
     r.check(pop.dominates(sp[0].block, wq[0].block), "pop/special-first", sp[0].loc(), "special_queue is popped before write_queue", "write_queue popped before the special queue")
     sws = pop.result_switches(sp[0])
     none = [pop.variant_edges(si["block"]).get("None") for si in sws if pop.variant_edges(si["block"])]
@@ -394,12 +408,20 @@ def value_backpressure_rules(r, ctx):
         cl = const_store(pw, f, False)
         r.check(bool(cl) and all(pw.path_avoiding([0], set(pw.exits()), avoid={i}) is None for i in cl[:1]) and not const_store(pw, f, True), "prepare_write/clears-%s" % f, where(pw), "handing the value over clears the mark", "prepare_write does not clear `%s`: the same value is sent again and again" % f)
     swp = [c for c in pw.calls if c.name == "swap"]
-    clr = [c for c in pw.calls if c.name == "clear"]
-    r.check(len(swp) == 1 and len(clr) == 1 and pw.dominates(swp[0].block, clr[0].block) and describe_operand(pw, clr[0].args[0]).endswith(".current"), "prepare_write/swap-before-clear", where(pw),
-            "the pending value is swapped into the output buffer before current is cleared", "prepare_write clears before swapping (the value is lost) or clears the output buffer")
+    clr = [c for c in pw.calls if c.name == "clear" and describe_operand(pw, c.args[0]).endswith(".current")]
+    bad_clr = [c for c in pw.calls if c.name in ("clear", "truncate") and c.args and not describe_operand(pw, c.args[0]).endswith(".current")]
+    r.check(len(swp) == 1 and all(pw.dominates(swp[0].block, c.block) for c in clr) and not bad_clr, "prepare_write/swap-before-clear", where(pw),
+            "the pending value is swapped into the output buffer (and only afterwards may current be emptied)", "prepare_write clears before swapping (the value is lost) or clears the output buffer")
     pb = rt.fn(name="push_bytes", self_adt=VB)
-    seq = [c.name for c in pb.calls if c.args and describe_operand(pb, c.args[0]).endswith("current")]
-    r.check(seq[:1] == ["clear"] and "put" in seq, "push_bytes/overwrite", where(pb), "push_bytes replaces the not-yet-sent value (%s)" % seq, "push_bytes does %s" % seq)
+    on_cur = [c for c in pb.calls if c.args and describe_operand(pb, c.args[0]).endswith("current")]
+    puts = [c for c in on_cur if c.name in ("put", "put_slice", "extend_from_slice", "extend")]
+    pclr = [c for c in on_cur if c.name == "clear" or (c.name == "truncate" and describe_operand(pb, c.args[1]) == "0")]
+    # the buffer that prepare_write swaps in is the writer's and still holds the body of the frame sent last. A new value must land in an empty buffer:
+    # either push_bytes empties `current` on every path before it writes (A), or prepare_write leaves it empty after the swap on every path (B)
+    a_ok = bool(puts) and all(pb.must_pass([0], {c.block for c in pclr}, targets={p_.block})[0] if pclr else False for p_ in puts)
+    b_ok = bool(clr) and len(swp) == 1 and pw.must_pass(pw.succ[swp[0].block], {c.block for c in clr})[0]
+    r.check(bool(puts) and (a_ok or b_ok), "push_bytes/overwrite", where(pb), "a pushed value always lands in an emptied buffer (%s)" % ("push_bytes clears first" if a_ok else "prepare_write leaves current empty"),
+            "a value can be appended to what `current` already holds: neither push_bytes empties it on every path nor prepare_write after the swap - the bytes of the frame sent last (which came back with the swapped-in buffer) go out again in front of the next value")
 
 
 def frame_lane_name(r, ctx):
